@@ -383,7 +383,12 @@ func (ego *atFloat) serialize() string {
 	if abs >= math.Pow10(6) || (abs > 0 && abs <= math.Pow10(-6)) {
 		return strconv.FormatFloat(val, 'e', -1, 64)
 	}
-	return strconv.FormatFloat(val, 'f', -1, 64)
+	str := strconv.FormatFloat(val, 'f', -1, 64)
+	if val == math.Trunc(val) {
+		// Whole-valued floats keep the decimal point, so they are not parsed back as ints
+		str += ".0"
+	}
+	return str
 }
 
 /*
